@@ -87,6 +87,29 @@ class Env(dict):
         return False, None
 
 
+def strip_eval_locals(env):
+    """the chain of namespaces without the `locals` mapping handed to eval() (see eval_comprehension)"""
+    if not isinstance(env, Env):
+        return env
+    layers, e = [], env
+    while e is not None:
+        layers.append(e)
+        e = e.parent
+    if not any(getattr(x, "eval_locals", False) for x in layers):
+        return env
+    out = None
+    for x in reversed(layers):
+        if getattr(x, "eval_locals", False):
+            continue
+        n = Env(out)
+        n.update(x)
+        n.globals_declared = x.globals_declared
+        if getattr(x, "func", None) is not None:
+            n.func = x.func
+        out = n
+    return out if out is not None else Env(None)
+
+
 class ExcHandle:
     """What ``except X as e`` binds for native exceptions created with symbolic arguments."""
 
@@ -1843,6 +1866,15 @@ class Interp:
             else:
                 out.append(v)
             return None
+        if T is ast.YieldFrom:
+            # yield from <iterable>: every value of the iterable is yielded in turn (values sent in and the sub-generator's return value are not modelled: None)
+            found, out = env.lookup("__yield__") if isinstance(env, Env) else ("__yield__" in env, env.get("__yield__"))
+            for v in self.iterate(self.eval(e.value, env, mod)):
+                if callable(out):
+                    out(v)
+                else:
+                    out.append(v)
+            return None
         if T is ast.Starred:
             raise Unsupported("starred expression outside call/display")
         raise Unsupported(f"expression {T.__name__}")
@@ -1895,7 +1927,9 @@ class Interp:
         # (language reference: the iterable of the leftmost `for` is evaluated at once, in the enclosing scope; everything else when the values are asked for)
         first = self.iterate(self.eval(e.generators[0].iter, env, mod))
         if T is ast.GeneratorExp:
-            return GenList(rec(0, env, first))
+            # a generator expression is a function scope of its own: inside code run by eval(code, globals, locals) its body sees the globals, NOT the
+            # separate locals mapping (names there are compiled as global look-ups); only the leftmost iterable is evaluated outside
+            return GenList(rec(0, strip_eval_locals(env), first))
         out = list(rec(0, env, first))
         if T is ast.DictComp:
             return dict(out)
